@@ -107,7 +107,7 @@ def run(c) -> CaseResult:
 
         def reference(P, inp, mode):
             return dsl.evaluate(prog, dsl.named_tensors(qm), inp, mode)
-        n_q = sum(s["op"] in ("linear", "ulinear", "sdpa") for s in prog["stmts"])
+        n_q = sum({"linear": 1, "ulinear": 1, "sdpa": 1, "seq": 2}.get(s["op"], 0) for s in prog["stmts"])
     else:
         h = c["h"]
         feats = ["root=" + c["root"]]
@@ -234,7 +234,7 @@ def run_repeat(c) -> CaseResult:
     prog = c["prog"]
     fwd, bwd = mk_fmt(c["fwd"]), mk_fmt(c["bwd"])
     cls = dsl.build_class(prog)
-    n_q = sum(s["op"] in ("linear", "ulinear", "sdpa") for s in prog["stmts"])
+    n_q = sum({"linear": 1, "ulinear": 1, "sdpa": 1, "seq": 2}.get(s["op"], 0) for s in prog["stmts"])
     for k in range(c["n"]):
         m = dsl.build_module(prog, c["seed"] + k, cls=cls)
         inputs = dsl.make_inputs(prog, c["seed"] + k)
